@@ -14,6 +14,7 @@ mod rnd;
 mod rt;
 mod proxy;
 mod refpeer;
+mod scen_adv;
 mod scen_c08;
 mod scen_c10;
 mod scen_c12;
@@ -40,6 +41,8 @@ fn generate(prop: &str, seed: u64, thorough: bool) -> Option<Plan> {
         "C03" => Some(scen_ref::gen_c03(seed, thorough)),
         "C04" => Some(scen_link::gen_c04(seed, thorough)),
         "C05" => Some(scen_link::gen_c05(seed, thorough)),
+        "C06" => Some(scen_adv::gen_adv("C06", seed, thorough)),
+        "C07" => Some(scen_adv::gen_adv("C07", seed, thorough)),
         "C08" => Some(scen_c08::gen_c08(seed, thorough)),
         "C10" => Some(scen_c10::gen_c10(seed, thorough)),
         "C11model" => Some(scen_pw::gen_c11_model(seed, thorough)),
@@ -68,6 +71,8 @@ fn execute(plan: &Plan) -> Outcome {
         "interop" => scen_ref::execute_c03(plan),
         "freshness" => scen_c10::execute_c10(plan),
         "nonces" => scen_c12::execute_c12(plan),
+        "unauthenticated" => scen_adv::execute_c06(plan),
+        "crash-inputs" => scen_adv::execute_c07(plan),
         other => {
             eprintln!("unknown scenario {other}");
             std::process::exit(2);
